@@ -43,11 +43,11 @@ func main() {
 	states, trans := 0, int64(0)
 	fix := true
 	per := []any{}
-	for _, kind := range []string{"cache", "ecache", "expirable"} {
+	for _, kind := range []string{"cache", "ecache", "ecacheptr", "expirable"} {
 		for capa := 1; capa <= maxCap; capa++ {
 			kind, capa := kind, capa
 			keys := capa + 1
-			if kind == "ecache" && capa >= 3 && !run.Thorough() {
+			if (kind == "ecache" || kind == "ecacheptr") && capa >= 3 && !run.Thorough() {
 				keys = capa // two outer keys per inner key already double the alphabet
 			}
 			al := lruh.New(kind, capa, keys).Alphabet()
